@@ -84,6 +84,15 @@ func (x *Explorer) doCall(fr *frame, in ssa.Instruction, ev Event, site *ssa.Cal
 	res := x.T.mk(Term{Kind: KCall, N: x.next(), Ref: calleeRef(&ev), Args: ev.Args, Type: resType})
 	ev.Result = res
 	x.havocCall(in, &ev)
+	// a bufio.Reader / bufio.Writer method dereferences its receiver at once:
+	// the call returns only for a non-nil receiver
+	if f := ev.Static; f != nil && f.Blocks == nil && f.Signature.Recv() != nil && len(ev.Args) > 0 && ev.Args[0] != nil {
+		if pt, ok := f.Signature.Recv().Type().(*types.Pointer); ok {
+			if nt, ok := pt.Elem().(*types.Named); ok && nt.Obj().Pkg() != nil && nt.Obj().Pkg().Path() == "bufio" && (nt.Obj().Name() == "Reader" || nt.Obj().Name() == "Writer") {
+				x.AssumeLit(x.Eq(ev.Args[0], x.T.Const(nil, ev.Args[0].Type)), false)
+			}
+		}
+	}
 	if x.Opts.AfterCall != nil {
 		x.Opts.AfterCall(x, &ev)
 	}
@@ -256,6 +265,17 @@ func (x *Explorer) builtin(fr *frame, in ssa.Instruction, ev *Event, resType typ
 				hit = a.Contains(dst.Args[0]) || (a.Kind == KFieldAddr && a.Var == dst.Args[0].Var)
 			default:
 				hit = a.Kind == KIndexAddr && (r == nil || r.Kind != KAlloc)
+			}
+			// copy(b[lo:hi], ..) leaves b[k] alone for constant k < lo or k >= hi
+			if hit && a.Kind == KIndexAddr && dst.Kind == KSlice && a.Args[0] == dst.Args[0] {
+				if k, isK := a.Args[1].Int64(); isK {
+					if lo, isLo := x.stripWiden(dst.Args[1]).Int64(); isLo && dst.Args[1].Kind != KNone && k < lo {
+						hit = false
+					}
+					if hi, isHi := x.stripWiden(dst.Args[2]).Int64(); isHi && dst.Args[2].Kind != KNone && k >= hi {
+						hit = false
+					}
+				}
 			}
 			if hit {
 				x.setMem(a, unkTerm)
